@@ -3,3 +3,5 @@
 package main
 
 func variantOpts(c *caseSpec) []Option { return nil }
+
+func variantToggles(c *caseSpec) []Option { return nil }
